@@ -69,6 +69,8 @@ type Behavior struct {
 
 	// Hostile: after the handshake run this raw script instead of the normal protocol.
 	Hostile func(p *Peer) `json:"-"`
+	// HostileSpec: same, with a built-in generated script (JSON-able).
+	HostileSpec *HostileSpec `json:"hostile,omitempty"`
 
 	// KeepAlive period (0 = 60 s).
 	KeepAlive time.Duration
@@ -159,6 +161,7 @@ type Peer struct {
 	MetaReqs        []uint32 // ut_metadata requests received from the SUT
 	PEXRecv         int      // PEX messages received from the SUT
 	ExtHandshakeRx  map[string]any
+	drainDone       bool
 	onMetaData      func(piece int, dict map[string]any, data []byte)
 }
 
@@ -261,9 +264,13 @@ func (p *Peer) Run(c net.Conn) error {
 	c.SetDeadline(time.Time{})
 	p.logf("handshake ok (sut id %q fast=%v ext=%v)", string(hs.PeerID[:8]), hs.Fast(), hs.Extended())
 	go p.writer()
-	if p.B.Hostile != nil {
+	if p.B.Hostile != nil || p.B.HostileSpec != nil {
 		go p.drain()
-		p.B.Hostile(p)
+		if p.B.Hostile != nil {
+			p.B.Hostile(p)
+		} else {
+			p.runHostile(*p.B.HostileSpec)
+		}
 		return p.finish(nil)
 	}
 	p.sendInitial()
@@ -280,6 +287,11 @@ func (p *Peer) Run(c net.Conn) error {
 
 // drain reads and discards (still strictly decoding) while a hostile script runs.
 func (p *Peer) drain() {
+	defer func() {
+		p.mu.Lock()
+		p.drainDone = true
+		p.mu.Unlock()
+	}()
 	for {
 		if _, err := ReadMsg(p.conn, -1, 1<<22); err != nil {
 			var we *WireError
